@@ -27,7 +27,7 @@ def tsan(family, shards, budget_s):
     return dict(engine="tsan", family=family, shards=shards, budget_ms=int(budget_s * 1000))
 
 
-Q = 90     # quick: cap in seconds per native shard (the shard stops after QN[family] scenarios)
+Q = 180    # quick: cap in seconds per native shard (the shard stops after QN[family] scenarios)
 QN = {"A": 600, "B": 1200, "C": 400, "D": 1000, "E": 700, "G": 2000, "K": 70}   # scenarios per quick shard
 T = 45     # seconds per native shard, thorough
 MQ = 16    # miri seeds, quick
@@ -84,7 +84,7 @@ RULES = {
         "C13": "family B (stop-race programs: a stop() left to its timeout with the loop still running is reported, natively also one that returns before the loop has ended although nothing was parked or slow, or although the reducer - parked with a full queue until 3.4 s after the call - had been released and the join had not used up its time) and family G: 2-4 client threads running random programs over the whole public API, each ending with stop(), in a third of the blocking-policy scenarios preceded by a phase in which every thread hammers a capacity-1/2 queue and thread 0 calls iter() in the middle of it (+ witnesses W2, W3 of the known iterator findings); non-trivial iff >=3 client threads and >=4 operation kinds; " + SCHED,
         "C14": "families D and B (+ witness W2): iterator consumer on its own thread racing 1-4 producers and stop(), iterator created at a random point before stop(); an unread empty iterator dropped while another unsubscribe() is parked inside on_unsubscribe, then actions for a second, live iterator; non-trivial iff >=1 item was consumed while producers were still dispatching and end-of-stream was reached; " + SCHED,
         "C15": "family B with drop(DroppableStore) as the stop operation and outstanding clones used by 1-6 threads; natively a drop that returns through its timeout with the loop still running although nothing was parked is a violation, as is one that returns with the backlog unprocessed right after a late release of the parked reducer; 1/25: subscriber list poisoned by a panicking on_unsubscribe before the drop; non-trivial as C04 plus >=1 clone used after the drop; " + SCHED,
-        "C16": "family K (one SelectorSubscriber instance registered on two stores); family I: exhaustive enumeration of all sequences over {0,1,2} up to length 9 fed to a real SelectorSubscriber, once with u8 equality and once with a tolerance (non-transitive) equality, plus family D (subscribe_with_selector on a live store; one SelectorSubscriber notified by 2-4 threads in lock step, 300 rounds, then by free-running threads, then with its callback parked while another thread presents the next value); non-trivial iff the sequence/stream contains both a repeat and a change; distinct = enumeration length class or schedule fingerprint",
+        "C16": "family K (one SelectorSubscriber instance registered on two stores); family I: exhaustive enumeration of all sequences over {0,1,2} up to length 9 fed to a real SelectorSubscriber, once with u8 equality and once with a tolerance (non-transitive) equality, plus family D (subscribe_with_selector on a live store; one SelectorSubscriber notified by 2-4 threads in lock step, 120 rounds, then by free-running threads, then with its callback parked while another thread presents the next value); non-trivial iff the sequence/stream contains both a repeat and a change; distinct = enumeration length class or schedule fingerprint",
         "C17": "family H: both constructors x every sequence over 18 builder calls up to length 3 (quick, 12 350 builds) / 4 (thorough, 222 302) plus random length 5-8, each compared with the last-setting model and every Ok result probed (thread name, chain order, middleware order, queue bound, drop behaviour); distinct = enumeration chunk of 64 builds (see builds for the count)",
         "C18": "families A, B, C, E with a sampler thread; non-trivial iff >=2 dispatching threads and at least two of {drops, vetoes, effects, rejected dispatches} occurred; " + SCHED,
         "C19": "family K: two stores (equal or different configuration, possibly same name, shared subscriber object), interleaved clients, one stopped or dropped while the other is busy; natively 1/6: the idle store is stopped while the other store's stop() waits for its own parked effect; 1/40: pool probe - two fresh child processes differing only in the store created first must run the same number of parked effects at once; non-trivial iff the survivor had reducer-context events or a backlog while the other was stopping; " + SCHED,
